@@ -1,4 +1,5 @@
 """C02 — the compiler never crashes and never fails silently."""
+import time
 import collections
 from lib import *
 import faultgen
@@ -197,14 +198,22 @@ def main():
     for _tag, src in faultgen.statement_fault_programs():
         inputs.append([("s.pn", src)])
     # every kind of argument, plain and in one or two pairs of parentheses, for every kind of parameter
-    PK = [("x: []i32", ["a", "[1, 2]", "sl"]), ("x: &[]i32", ["&a"]), ("x: &[3]i32", ["&a"]), ("x: &i32", ["&v"]), ("x: i32", ["v", "1", "a[0]"]),
-          ("x: S", ["st", "S { m: 1 }"]), ("x: &S", ["&st"]), ("x: [][2]i32", ["g"]), ("x: []S", ["ss"])]
+    PK = [("x: []i32", ["a", "[1, 2]", "[1i32, 2]", "sl"]), ("x: &[]i32", ["&a"]), ("x: &[3]i32", ["&a"]), ("x: &i32", ["&v"]), ("x: i32", ["v", "1", "a[0]"]),
+          ("x: S", ["st", "S { m: 1 }"]), ("x: &S", ["&st"]), ("x: [][2]i32", ["g", "[[1, 2], [3, 4]]"]), ("x: []S", ["ss", "[S { m: 1 }]"]),
+          ("x: []char8", ['"abc"', 'format!("a", v)', "file!()", "chars"]), ("x: []u8", ['"abc"', "[1u8, 2u8]"])]
     for (param, args) in PK:
         for arg in args:
             for wrap in ("%s", "(%s)", "((%s))"):
-                inputs.append([("q.pn", "struct S\n{\n\tm: i32,\n}\nfn callee(%s)\n{\n}\nfn outer(sl: []i32)\n{\n\tvar a: [3]i32 = [1, 2, 3];\n\tvar v: i32 = 1;\n"
-                                "\tvar st = S { m: 1 };\n\tvar g: [2][2]i32 = [[1, 2], [3, 4]];\n\tvar ss: [2]S = [S { m: 1 }, S { m: 2 }];\n\tcallee(%s);\n}\nfn main()\n{\n}\n"
-                                % (param, wrap % arg))])
+                for ext in ("", "extern "):
+                    inputs.append([("q.pn", "struct S\n{\n\tm: i32,\n}\n%sfn callee(%s)\n{\n}\nfn outer(sl: []i32)\n{\n\tvar a: [3]i32 = [1, 2, 3];\n\tvar v: i32 = 1;\n"
+                                    "\tvar st = S { m: 1 };\n\tvar g: [2][2]i32 = [[1, 2], [3, 4]];\n\tvar ss: [2]S = [S { m: 1 }, S { m: 2 }];\n\tvar chars: [2]char8 = \"ab\";\n\tcallee(%s);\n}\nfn main()\n{\n}\n"
+                                    % (ext, param, wrap % arg))])
+    # print! of every kind of parameter, its address and its length, in ordinary and extern functions
+    for ext in ("", "extern "):
+        for k in ("i32", "&i32", "[]i32", "&[]i32", "&[3]i32", "S", "&S", "(S)", "[]char8", "&[]char8", "&&[]i32", "[][2]i32", "&[..]u8",
+                  "[]S", "bool", "char8", "&&S", "W", "&W"):
+            for arg in ("x", "&x", "|x|", '"{}", x'):
+                inputs.append([("pr.pn", "struct S\n{\n\tm: i32,\n}\nword16 W\n{\n\ta: u8,\n\tb: u8,\n}\n%sfn f(x: %s)\n{\n\tprint!(%s);\n}\nfn main()\n{\n}\n" % (ext, k, arg))])
     # the pointer-advancing operator `..` (tests/samples/valid/pointer_arithmetic.pn) with every kind of right operand
     for off in ("1", "1usize", "1i8", "true", "'a'", "&p", "p", "a", "x", "st", "-1", "1 + x", "f()"):
         inputs.append([("p.pn", "struct S\n{\n\tm: i32,\n}\nfn f() -> usize\n{\n\treturn: 1\n}\nfn main() -> i32\n{\n\tvar a: [4]i32 = [1, 2, 3, 4];\n"
@@ -385,6 +394,59 @@ def main():
         rep.violation("c02:dev-binary:%s:%d:%s" % (kind, d, rc), {
             "why": "the compiler binary built with the repository's own dev profile ends with status %s on %s nested %d deep" % (rc, kind, d),
             "source": NEST[kind](d), "stderr": err})
+    # flat chains: nesting depth 1, but the parser builds a tree as deep as the chain is long and the later passes recurse
+    FLAT = {
+        "addition-chain": lambda n: "fn main() -> i32\n{\n\treturn: " + " + ".join(["1"] * n) + "\n}\n",
+        "cast-chain": lambda n: "fn main() -> i32\n{\n\treturn: 1" + " as i32" * n + "\n}\n",
+        "else-if-chain": lambda n: "fn main()\n{\n\tvar a: i32 = 1;\n\tif a == 1\n\t{\n\t}\n" + "\telse if a == 1\n\t{\n\t}\n" * n + "}\n",
+        "statements": lambda n: "fn main()\n{\n\tvar a: i32 = 1;\n" + "\ta = a + 1;\n" * n + "}\n",
+        "array-elements": lambda n: "fn main()\n{\n\tvar a = [" + ", ".join(["1u8"] * n) + "];\n}\n",
+        "arguments": lambda n: "fn f(" + ", ".join("p%d: i32" % i for i in range(n)) + ")\n{\n}\nfn main()\n{\n\tf(" + ", ".join(["1"] * n) + ");\n}\n",
+    }
+    flat_jobs = [(kind, n) for kind in FLAT for n in (100, 400, 1000, 2000, 4000) if len(FLAT[kind](n)) <= 65536]
+    NEST.update(FLAT)
+    with ThreadPoolExecutor(max_workers=8) as ex:
+        flat_res = list(ex.map(run_nest, flat_jobs))
+    flat_overflow = {}
+    for (kind, n), (rc, err) in zip(flat_jobs, flat_res):
+        dist["dev-binary-flat:%s:%s" % (kind, "ok" if rc in (0, 1) else "crash")] += 1
+        if rc in (0, 1):
+            continue
+        if "overflowed its stack" in err and n >= 1000 and kind in ("addition-chain", "cast-chain", "else-if-chain"):
+            flat_overflow.setdefault(kind, n)
+            continue
+        rep.violation("c02:dev-binary-flat:%s:%d:%s" % (kind, n, rc), {
+            "why": "the compiler binary built with the repository's own dev profile ends with status %s on a flat %s of %d links" % (rc, kind, n),
+            "source": FLAT[kind](n)[:2000], "stderr": err})
+    if flat_overflow:
+        rep.violation("c02:crash:stack-overflow-of-the-dev-profile-binary-on-a-flat-chain", {
+            "why": "the unoptimised binary overflows its stack on a chain of nesting depth 1 within 64 KiB; first failing length per kind: %s" % flat_overflow,
+            "source": FLAT[sorted(flat_overflow)[0]](flat_overflow[sorted(flat_overflow)[0]])[:4000]})
+    # growth of the running time on inputs that are long but not deep (the property says: never hangs)
+    def timed(src, tag):
+        f = os.path.join(work, "time_%s.pn" % tag)
+        with open(f, "w") as fh:
+            fh.write(src)
+        t = time.time()
+        try:
+            subprocess.run([penne, "emit", f], stdout=subprocess.DEVNULL, stderr=subprocess.DEVNULL, env=env, timeout=300)
+        except subprocess.TimeoutExpired:
+            return 300.0
+        return time.time() - t
+    chain = lambda n: "const c0: u8 = 1;\n" + "".join("const c%d: u8 = c%d;\n" % (i, i - 1) for i in range(1, n)) + "fn main()\n{\n}\n"
+    oneline = lambda n: "fn main()\n{\n\t" + " ".join("var x%d = y%d;" % (i, i) for i in range(n)) + "\n}\n"
+    GROWTH = [("constant-chain", chain, 150, 300, "c02:slow:cubic-time-on-a-chain-of-constants"),
+              ("errors-on-one-line", oneline, 120, 240, "c02:slow:quadratic-time-rendering-many-diagnostics-on-one-line")]
+    with ThreadPoolExecutor(max_workers=4) as ex:
+        times = list(ex.map(lambda a: timed(a[0](a[1]), a[2]), [(g[1], n, "%s_%d" % (g[0], n)) for g in GROWTH for n in (g[2], g[3])]))
+    for gi, (name, gen, n1, n2, key) in enumerate(GROWTH):
+        t1, t2 = times[2 * gi], times[2 * gi + 1]
+        dist["growth:%s:t(%d)=%.1fs:t(%d)=%.1fs" % (name, n1, t1, n2, t2)] += 1
+        # doubling the input more than triples the time, and the projection to the 64 KiB bound is minutes: super-linear
+        if t2 > 1.0 and t2 > 3.2 * t1:
+            rep.violation(key, {"why": "doubling the length of a %s from %d to %d multiplies the running time by %.1f (%.1fs -> %.1fs); an input "
+                                       "of this kind within the 64 KiB bound of the property takes many minutes" % (name, n1, n2, t2 / max(t1, 0.01), t1, t2),
+                                "source": gen(n1)[:1500]})
     if overflow_from:
         rep.violation("c02:crash:stack-overflow-of-the-dev-profile-binary-at-nesting-depth<=256", {
             "why": "the unoptimised binary overflows its 8 MiB stack within the nesting bound of the property; first failing depth per kind: %s" % overflow_from,
